@@ -3,6 +3,18 @@
 Correspondence (real code from $VERIF_REPO against the extracted coq/Model/Hosts.v):
   scanner   real hostwatch.found_host / read_host_cache / _check_etc_hosts, sys.stdout captured,
             module state reset per case, CACHEFILE and '/etc/hosts' redirected to scratch files;
+  scanner loop
+            the real hostwatch.hw_main in generated "remote machines" (seed names, hosts file present / absent, cache
+            present / absent / unreadable / unwritable, netstat output or no netstat, forward and reverse DNS tables with
+            every failure class, the machine's own name); its stdin (select + os.read), clock, stdout, resolver and
+            Popen are replaced from outside; oracles on the real code alone: nothing it meets ends it, nothing written
+            is left unflushed when it goes to sleep; its output is compared with the model's found_host on the calls made;
+  scanner process
+            the real server.start_hostwatch: fork, socket pair as the child's stdin/stdout, real hw_main with real
+            buffering; the records must arrive at the server's end and the child must leave with status 0;
+  server loop
+            the real server.main loop with a scanner attached (os.waitpid as seen by server.py scripted): it must poll
+            the child without blocking, keep relaying while it lives, and leave with status 99 once it is gone;
   server    the real hostwatch_ready closure, reached by running the real server.main with a
             scripted hostwatch socket (server.start_hostwatch, server.io and ssnet.runonce replaced);
   client    the real onhostlist closure, reached by running the real client._main up to its main
@@ -24,13 +36,19 @@ RULE = ("names x addresses x cuttings: adversarial names (separators, '#', blank
         "every cutting of short scanner streams and random cuttings (reads of 1..4096 bytes) of long ones through the real "
         "hostwatch_ready; arbitrary host-list payloads through the real onhostlist/sethostip and the real helper, including well-formed "
         "names of 107..60000 characters (HOST lines across every plausible reader limit), all compared with the model reading with the "
-        "limit observed at the real helper's stdin; a case is "
+        "limit observed at the real helper's stdin; the scanner's main loop in generated remote machines (names with NUL, "
+        "labels IDNA refuses, non-UTF-8 reverse-DNS answers, missing / unreadable / unwritable files, netstat present or not), "
+        "the scanner as a forked process, the server's loop with the scanner attached; a case is "
         "non-trivial when at least one record is emitted / relayed / filtered; distinct by content hash")
 TRUSTED_BASE = [
     "modelled, not verified: CPython str/bytes split/strip/partition/%-formatting, re on the 6 patterns of Appendix D "
     "(\\w, \\d, isspace above U+007F are tables: theorems hold for every table, the correspondence passes CPython's own "
     "classification of the code points of each case), text-mode universal newlines, UTF-8 as the remote locale encoding",
     "the scripted socket / file objects of harness/props/c19.py stand for the hostwatch socketpair, the ssh pipe and the helper's stdin",
+    "hw_main runs: select/os.read on stdin, time.time, sys.stdout, socket.gethostbyname/gethostbyaddr/gethostname (tables; the argument "
+    "conversion that precedes a real lookup - idna codec, NUL check - is CPython's and is compared with the real socket functions where "
+    "they fail before any lookup), subprocess.Popen(['netstat','-n']) and open() are stand-ins installed from outside; the process-level "
+    "run uses the real fork/socketpair/select/stdout",
 ]
 ASSUMPTIONS = [
     "the helper reads its input with stdin.readline() WITHOUT a limit (Gen/Consts.fw_readline_limit = None, regenerated from "
@@ -40,6 +58,8 @@ ASSUMPTIONS = [
     "every line written by the scanner is at most 61440 bytes (61439 + newline); a longer line makes the server's Mux.send assertion fail (F26)",
     "the remote locale encoding is UTF-8 (what sys.stdout of hostwatch writes and what its text-mode open() decodes); undecodable bytes are read as U+FFFD once pending_fixes/F24_F25.diff is applied (as found: UnicodeDecodeError, F24)",
     "order of lines inside the hosts file and the untouched foreign lines are C14's (rewrite_etc_hosts); here only the fields of each added line",
+    "names that arrive as C strings (command line, gethostname(), gethostbyaddr()) contain no NUL; names read from the remote hosts file / cache may; "
+    "the output of `netstat -n` is ASCII (non-ASCII bytes there end hostwatch: recorded as an observation, a socket path is not a host name)",
 ]
 
 PORT = 12300
@@ -581,14 +601,13 @@ def check_dns_names(ctx, rng):
 
         @staticmethod
         def gethostbyname(name):
-            if isinstance(name, str):
-                name.encode("idna")          # UnicodeError for empty / over-long labels and unencodable text
+            resolver_arg(name)               # UnicodeError for empty / over-long labels and unencodable text, TypeError for NUL
             ip = table.get(name)
             if ip is None:
                 raise real_socket.gaierror(-2, "Name or service not known")
             return ip
 
-    names = ["known.example", "unknown.example", "a" * 63 + ".example", "a" * 64 + ".example", "a..b", ".", "..", "",
+    names = ["nul\0name", "a\0", "known.example", "unknown.example", "a" * 63 + ".example", "a" * 64 + ".example", "a..b", ".", "..", "",
              "x." + "b" * 64, "\ufffd.example", "caf\xe9.example", "b\xfccher.example", "\udcff.example", "a" * 300,
              "xn--.example", "-.-", " lead.example", "tab\t.example", "\u2603.example", "a.b." + "c" * 70 + ".d"]
     names += ["".join(rng.choice("ab.-_\xe9\ufffd") for _ in range(rng.randint(1, 80))) for _ in range(60)]
@@ -612,8 +631,591 @@ def check_dns_names(ctx, rng):
         ctx.disagree("check_dns", "known.example", found[:3], "resolvable names are reported")
 
 
+# --------------------------------------------------------------------------
+# the scanner's main loop (hostwatch.hw_main), its process (server.start_hostwatch) and the server's watch over it
+
+def resolver_arg(name):
+    """What CPython does with the host argument of gethostbyname / gethostbyaddr BEFORE anything is looked up
+    (format 'et' with the idna codec): UnicodeError for text IDNA refuses, TypeError for an embedded NUL."""
+    b = name.encode("idna") if isinstance(name, str) else bytes(name)
+    if b"\0" in b:
+        raise TypeError("argument 1 must be encoded string without null bytes, not str")
+    return b
+
+
+class Shim(object):
+    """module replacement: the listed attributes are overridden, everything else comes from the real module"""
+
+    def __init__(self, real, **over):
+        self.__dict__["_real"] = real
+        self.__dict__.update(over)
+
+    def __getattr__(self, k):
+        return getattr(self._real, k)
+
+
+def make_resolver(w):
+    """hostwatch.socket replacement: gethostbyname / gethostbyaddr / gethostname answer from the world's tables
+    (no network); the argument conversion that precedes every real lookup is the real one (resolver_arg)"""
+    import socket as real_socket
+
+    def gethostbyname(name):
+        resolver_arg(name)
+        v = w["dns"].get(name)
+        if v is None or v == "gaierror":
+            raise real_socket.gaierror(-2, "Name or service not known")
+        return v
+
+    def gethostbyaddr(ip):
+        resolver_arg(ip)
+        v = w["rev"].get(ip)
+        if v is None or v == "herror":
+            raise real_socket.herror(1, "Unknown host")
+        if v == "gaierror":
+            raise real_socket.gaierror(-2, "Name or service not known")
+        if v == "oserror":
+            raise OSError(22, "Invalid argument")
+        if v == "decode":      # an h_name that is not UTF-8: PyUnicode_FromString fails
+            raise UnicodeDecodeError("utf-8", b"\xe9t\xe9", 0, 1, "invalid continuation byte")
+        return (v, [], [ip])
+    return Shim(real_socket, gethostbyname=gethostbyname, gethostbyaddr=gethostbyaddr, gethostname=lambda: w["hostname"])
+
+
+class ScanStop(BaseException):
+    pass
+
+
+class ScanOut:
+    """the scanner's stdout: what was written and how much of it has been flushed"""
+
+    def __init__(self, fail_flush_at=None):
+        self.parts = []
+        self.flushed = 0
+        self.nflush = 0
+        self.broken = False          # a flush has failed: the reader is gone
+        self.fail_flush_at = fail_flush_at
+
+    def write(self, s):
+        self.parts.append(s)
+        return len(s)
+
+    def flush(self):
+        self.nflush += 1
+        if self.fail_flush_at is not None and self.nflush >= self.fail_flush_at:
+            self.broken = True
+            raise IOError(32, "Broken pipe")
+        self.flushed = len(self.parts)
+
+    def unflushed(self):
+        return "".join(self.parts[self.flushed:])
+
+    def text(self):
+        return "".join(self.parts)
+
+
+def scan_files(work, w):
+    """lay out the remote machine's files of world w; returns (CACHEFILE, path standing for /etc/hosts)"""
+    d = os.path.join(work, "remote")
+    shutil.rmtree(d, ignore_errors=True)
+    os.makedirs(d)
+    cache = os.path.join(d, "cache.hosts")
+    etc = os.path.join(d, "etc_hosts")
+    if w.get("cache") == "DIR":
+        os.mkdir(cache)
+    elif w.get("cache") is not None:
+        with open(cache, "wb") as f:
+            f.write(bytes.fromhex(w["cache"]))
+    if w.get("etc") is not None:
+        with open(etc, "wb") as f:
+            f.write(bytes.fromhex(w["etc"]))
+    return cache, etc
+
+
+def install_scanner_world(hw, work, w):
+    """replace, from outside, what hostwatch reaches of the remote machine: files, resolver, netstat.
+    Returns a restore function.  (stdin / stdout / select / clock are NOT touched here.)"""
+    import subprocess as real_subprocess
+    cache, etc = scan_files(work, w)
+
+    def fake_open(path, mode="r", *a, **k):
+        if path == "/etc/hosts":
+            path = etc
+        if w.get("tmp_unwritable") and "w" in mode and str(path).endswith(".tmp"):
+            raise OSError(13, "Permission denied", path)      # the remote home directory cannot be written
+        if "b" not in mode and "encoding" not in k:
+            k["encoding"] = "utf-8"
+        return builtins.open(path, mode, *a, **k)
+
+    class Popen:
+        def __init__(self, argv, **kw):
+            if argv[:1] != ["netstat"]:
+                raise AssertionError("unexpected command %r" % (argv,))
+            if w.get("netstat") is None:
+                raise OSError(2, "No such file or directory", "netstat")
+            self.stdout = io.BytesIO(bytes.fromhex(w["netstat"]))
+
+        def wait(self):
+            return w.get("netstat_rv", 0)
+
+    old = (getattr(hw, "open", None), hw.CACHEFILE, hw.socket, hw.ssubprocess, hw.log)
+    hw.open = fake_open
+    hw.CACHEFILE = cache
+    hw.socket = make_resolver(w)
+    hw.ssubprocess = Shim(real_subprocess, Popen=Popen)
+    hw.log = lambda s: None
+
+    def restore():
+        o, hw.CACHEFILE, hw.socket, hw.ssubprocess, hw.log = old
+        if o is None:
+            del hw.open
+        else:
+            hw.open = o
+        hw.hostnames.clear()
+        hw.queue.clear()
+        hw.SHOULD_WRITE_CACHE = False
+        hw.CACHE_WRITE_FAILED = False
+    restore_state = restore
+    hw.hostnames.clear()
+    hw.queue.clear()
+    hw.SHOULD_WRITE_CACHE = False
+    hw.CACHE_WRITE_FAILED = False
+    return restore_state
+
+
+def run_hw_main(work, w):
+    """the real hostwatch.hw_main, in this process, in world w.  stdin: from the w['eof_after']-th wait (select with a
+    timeout) on - or from select call number w['eof_at_select'] on - the parent is gone (readable, read returns b'');
+    select calls listed in w['data_at'] find stdin readable with a byte to read.  Every wait advances the clock by the
+    next entry of w['dts']."""
+    import select as real_select
+    import time as real_time
+    import sshuttle.hostwatch as hw
+    import sshuttle.helpers as helpers
+    out = ScanOut(w.get("fail_flush_at"))
+    st = {"selects": 0, "waits": 0, "now": 1000000.0, "unflushed_at_wait": None, "readable": None, "calls": [], "depth": 0, "after_eof": 0}
+    dts = w.get("dts") or [1]
+
+    class In:
+        @staticmethod
+        def fileno():
+            return 0
+
+    def fake_select(r, wr, x, timeout=None):
+        st["selects"] += 1
+        if timeout:
+            if out.unflushed() and not out.broken and st["unflushed_at_wait"] is None:
+                st["unflushed_at_wait"] = out.unflushed()
+            st["now"] += dts[st["waits"] % len(dts)]
+            st["waits"] += 1
+        if st["waits"] >= w["eof_after"] or (w.get("eof_at_select") and st["selects"] >= w["eof_at_select"]):
+            st["after_eof"] += 1
+            if st["after_eof"] > 8:
+                raise ScanStop()          # the parent went away long ago and the scanner is still running
+            st["readable"] = b""
+            return (list(r), [], [])
+        if st["selects"] in w.get("data_at", ()):
+            st["readable"] = b"\n"
+            return (list(r), [], [])
+        return ([], [], [])
+
+    def fake_read(fd, n):
+        return st["readable"]
+
+    real_found = hw.found_host
+
+    def found_logged(name, ip):
+        if st["depth"] == 0:
+            st["calls"].append((name, ip))
+        st["depth"] += 1
+        try:
+            return real_found(name, ip)
+        finally:
+            st["depth"] -= 1
+
+    restore = install_scanner_world(hw, work, w)
+    old = (hw.sys, hw.select, hw.os, hw.time, hw.found_host, helpers.logprefix)
+    hw.sys = Shim(sys, stdout=out, stdin=In)
+    hw.select = Shim(real_select, select=fake_select)
+    hw.os = Shim(os, read=fake_read)
+    hw.time = Shim(real_time, time=lambda: st["now"])
+    hw.found_host = found_logged
+    try:
+        try:
+            rv = hw.hw_main(list(w["seeds"]), w["auto"])
+            status = "RETURN" if not rv else "RETURN %r" % (rv,)
+        except ScanStop:
+            status = "STILL-RUNNING"
+        except RecursionError:
+            status = "FUEL"
+        except Exception as e:
+            status = "EXC:" + type(e).__name__
+    finally:
+        hw.sys, hw.select, hw.os, hw.time, hw.found_host, helpers.logprefix = old
+        restore()
+    return {"status": status, "text": out.text(), "unflushed_at_wait": st["unflushed_at_wait"], "calls": st["calls"],
+            "unflushed_at_end": out.unflushed(), "waits": st["waits"], "flushes": out.nflush}
+
+
+def run_hostwatch_process(work, w, want_bytes, patience=6.0):
+    """the real server.start_hostwatch: a forked child with the socket pair as its stdin and stdout runs the real
+    hw_main (real select / read / clock / stdout buffering) in world w.  Reads what arrives on the server's end until
+    `want_bytes` bytes are there (or patience runs out), then closes it (the scanner sees end of input) and reaps the child."""
+    import select as real_select
+    import time as real_time
+    import sshuttle.server as server
+    import sshuttle.hostwatch as hw
+    import sshuttle.helpers as helpers
+    restore = install_scanner_world(hw, work, w)
+    oldlog, oldprefix = server.log, helpers.logprefix
+    server.log = lambda s: None
+    got = b""
+    sys.stdout.flush()
+    sys.stderr.flush()
+    try:
+        pid, sock = server.start_hostwatch(list(w["seeds"]), w["auto"])
+        try:
+            t_end = real_time.time() + patience
+            while len(got) < want_bytes and real_time.time() < t_end:
+                r, _, _ = real_select.select([sock], [], [], 0.25)
+                if r:
+                    c = sock.recv(4096)
+                    if not c:
+                        break
+                    got += c
+        finally:
+            sock.close()
+        t_end = real_time.time() + patience
+        status = None
+        while real_time.time() < t_end:
+            rpid, rv = os.waitpid(pid, os.WNOHANG)
+            if rpid:
+                status = rv
+                break
+            real_time.sleep(0.02)
+        if status is None:
+            os.kill(pid, 9)
+            os.waitpid(pid, 0)
+            status = "no exit after its input ended"
+    finally:
+        server.log, helpers.logprefix = oldlog, oldprefix
+        restore()
+    return {"bytes": got, "exit": status}
+
+
+def impl_server_watch(answers, chunks, seeds=b"alpha beta"):
+    """the real server.main loop with a scanner attached: the first (scripted) runonce delivers the client's host request
+    (real got_host_req -> start_hostwatch, replaced by a scripted socket with pid 4242); every later runonce lets the real
+    hostwatch_ready read the next chunk.  os.waitpid, as seen by server.py, answers from `answers` and records how it was asked."""
+    import sshuttle.server as server
+    import sshuttle.ssnet as ssnet
+    import sshuttle.helpers as helpers
+    sock = FakeSock()
+    res = {"waitpid": [], "payloads": [], "started": [], "runonce": 0, "exit": None, "relay": "OK"}
+    todo = list(chunks)
+    ans = list(answers)
+
+    class IoShim:
+        @staticmethod
+        def FileIO(fd, mode="r"):
+            return FakeFile(fd)
+
+    def fake_waitpid(pid, options):
+        res["waitpid"].append((pid, options))
+        if not ans:
+            raise StopLoop()
+        return ans.pop(0)
+
+    def fake_start(seed_hosts, auto_hosts):
+        res["started"].append((list(seed_hosts), auto_hosts))
+        return (4242, sock)
+
+    def fake_runonce(handlers, mux):
+        res["runonce"] += 1
+        if res["runonce"] == 1:
+            mux.outbuf = []
+            mux.got_host_req(seeds)
+            return
+        if not todo:
+            raise StopLoop()
+        sock.next = todo.pop(0)
+        k = len(mux.outbuf)
+        handlers[-1].callback(sock)
+        for fr in mux.outbuf[k:]:
+            res["payloads"].append(bytes(fr)[8:])
+
+    old = (server.io, server.start_hostwatch, ssnet.runonce, ssnet.set_non_blocking_io, server.log, server.os, helpers.logprefix)
+    so = sys.stdout
+    sys.stdout = io.StringIO()
+    try:
+        server.io = IoShim
+        server.start_hostwatch = fake_start
+        ssnet.runonce = fake_runonce
+        ssnet.set_non_blocking_io = lambda fd: None
+        server.log = lambda s: None
+        server.os = Shim(os, waitpid=fake_waitpid)
+        try:
+            server.main(False, 32768, True, None, False)
+            res["exit"] = "returned"
+        except StopLoop:
+            pass
+        except SystemExit as e:
+            res["exit"] = "exit %r" % (e.code,)
+        except Exception as e:
+            res["exit"] = "EXC:" + type(e).__name__
+    finally:
+        sys.stdout = so
+        server.io, server.start_hostwatch, ssnet.runonce, ssnet.set_non_blocking_io, server.log, server.os, helpers.logprefix = old
+    return res
+
+
+def rand_world(rng, plain=False):
+    """a remote machine for the scanner: seed names, hosts file, cache, netstat output, forward and reverse DNS.
+    plain: ASCII names only (what is sent through a real pipe in the process-level runs)"""
+    def nm():
+        if plain:
+            return ".".join("".join(rng.choice("abcxyzABC019-_") for _ in range(rng.randint(1, 8))) for _ in range(rng.randint(1, 3)))
+        return rand_name(rng).replace("\0", "")      # C strings: the command line, gethostname(), gethostbyaddr()
+
+    def file_nm():
+        return nm() if plain else rand_name(rng)        # bytes of a file: anything
+
+    def good_ip():
+        return "%d.%d.%d.%d" % (rng.choice([1, 10, 192, 200]), rng.randint(0, 255), rng.randint(0, 255), rng.randint(1, 254))
+    ips = [good_ip() for _ in range(rng.randint(1, 5))]
+    names = [nm() for _ in range(rng.randint(1, 6))]
+    w = {"seeds": [rng.choice(names + [nm(), rng.choice(ips)]) for _ in range(rng.randint(0, 3))],
+         "auto": plain or rng.random() < 0.8, "hostname": nm() if rng.random() < 0.8 else "localhost",
+         "dns": {}, "rev": {}, "eof_after": rng.choice([1, 2, 3, 5, 8]), "data_at": [], "dts": rng.choice([[1], [1, 31], [1, 901], [31, 1, 901, 5]])}
+    for n in names:
+        if rng.random() < 0.6:
+            w["dns"][n] = rng.choice(ips) if rng.random() < 0.8 else (rand_ip(rng) if not plain else good_ip())
+    for ip in ips:
+        r = rng.random()
+        w["rev"][ip] = nm() if r < 0.6 else rng.choice(["herror", "gaierror", "oserror", "decode"])
+    r = rng.random()
+    if r < 0.55:
+        lines = []
+        for _ in range(rng.randint(0, 4)):
+            lines.append("%s %s\n" % (rng.choice(ips + [rand_ip(rng)]), " ".join(rng.choice(names + [file_nm()]) for _ in range(rng.randint(1, 3)))))
+        w["etc"] = "".join(lines).encode("utf-8", "replace").hex()
+    elif r < 0.7:
+        w["etc"] = None
+    else:
+        w["etc"] = ("# nothing here\n%s localhost\n" % rng.choice(["127.0.0.1", "127.0.1.1"])).encode().hex()
+    r = rng.random()
+    if r < 0.4:
+        w["cache"] = "".join("%s,%s\n" % (rng.choice(names + [file_nm()]), rng.choice(ips)) for _ in range(rng.randint(0, 4))).encode("utf-8", "replace").hex()
+    elif r < 0.5:
+        w["cache"] = "DIR"
+    else:
+        w["cache"] = None
+    w["tmp_unwritable"] = rng.random() < 0.25
+    r = rng.random()
+    if r < 0.7:
+        ls = ["Active Internet connections (w/o servers)\n", "Proto Recv-Q Send-Q Local Address           Foreign Address         State\n"]
+        for _ in range(rng.randint(0, 5)):
+            ls.append("tcp        0      0 %s:%d      %s:%d     ESTABLISHED\n"
+                      % (rng.choice(ips), rng.randint(1, 65535), rng.choice(ips + [good_ip(), "999.1.1.1", "127.0.0.1"]), rng.randint(1, 65535)))
+        ls.append("Active UNIX domain sockets (w/o servers)\nunix  3      [ ]         STREAM     CONNECTED     25161    /run/user/1000/bus\n")
+        w["netstat"] = "".join(ls).encode().hex()
+        w["netstat_rv"] = rng.choice([0, 0, 0, 1])
+    else:
+        w["netstat"] = None
+    if rng.random() < 0.2:
+        w["data_at"] = sorted(set(rng.randint(1, 12) for _ in range(2)))
+    if rng.random() < 0.15:
+        w["eof_at_select"] = rng.randint(1, 25)
+    if rng.random() < 0.1:
+        w["fail_flush_at"] = rng.randint(1, 6)
+    return w
+
+
+HANDMADE_WORLD = {
+    "seeds": ["alpha.example", "10.1.1.1", "unknown.example"], "auto": True, "hostname": "thishost.example",
+    "dns": {"alpha.example": "10.2.2.2", "thishost.example": "10.3.3.3", "gamma.example": "10.4.4.4", "delta.example": "10.5.5.5"},
+    "rev": {"10.1.1.1": "beta.example", "10.2.2.2": "herror", "10.6.6.6": "epsilon.example", "10.4.4.4": "gaierror", "10.7.7.7": "decode"},
+    "etc": b"127.0.0.1 localhost\n10.4.4.4 gamma.example gamma # comment\n".hex(),
+    "cache": b"delta.example,10.5.5.5\n".hex(), "tmp_unwritable": False,
+    "netstat": b"tcp 0 0 10.3.3.3:22 10.6.6.6:40000 ESTABLISHED\ntcp 0 0 10.3.3.3:22 10.7.7.7:40001 ESTABLISHED\n".hex(), "netstat_rv": 0,
+    "eof_after": 8, "data_at": [3], "dts": [1],
+}
+HANDMADE_LINES = {"delta,10.5.5.5", "delta.example,10.5.5.5", "alpha,10.2.2.2", "alpha.example,10.2.2.2", "beta,10.1.1.1", "beta.example,10.1.1.1",
+                  "gamma,10.4.4.4", "gamma.example,10.4.4.4", "thishost,10.3.3.3", "thishost.example,10.3.3.3", "epsilon,10.6.6.6",
+                  "epsilon.example,10.6.6.6"}
+
+# names and bytes the scanner can meet in the remote hosts file / as seed names / as its own host name; each must be skipped
+# or sanitised, none may end the scanner
+HOSTILE_NAMES = ["nul\0name", "\0", "a\0", "1.2.3.4\0", "x" * 64, "a..b", ".", "", "caf\xe9.example", "\ufffd", "\udcff.example", "a b",
+                 "-", "_", "a" * 300, "\u0661.\u0662.\u0663.\u0664", "1.2.3.4\n", "999.999.999.999", "0.0.0.0", "xn--", "#", "a,b"]
+
+
+def hostile_worlds():
+    ws = []
+    for n in HOSTILE_NAMES:
+        base = {"auto": True, "hostname": "h.example", "dns": {}, "rev": {}, "cache": None, "netstat": None, "tmp_unwritable": False,
+                "eof_after": 5, "data_at": [], "dts": [1], "seeds": [], "etc": None}
+        if "\n" not in n:
+            ws.append(dict(base, etc=("10.9.9.9 %s\n" % n).encode("utf-8", "surrogateescape").hex(), via="a name in the remote hosts file"))
+            ws.append(dict(base, cache=("%s,10.9.9.9\n" % n).encode("utf-8", "surrogateescape").hex(), via="a name in the host cache"))
+        if "\0" in n:
+            continue        # a C string: cannot come from the command line, gethostname() or gethostbyaddr()
+        ws.append(dict(base, seeds=[n], via="a seed name"))
+        ws.append(dict(base, hostname=n, via="the remote machine's own host name"))
+        ws.append(dict(base, seeds=["10.8.8.8"], rev={"10.8.8.8": n}, via="a reverse-DNS answer"))
+    return ws
+
+
+def scanner_loop_cases(ctx, rng, quick, work, scanner_streams):
+    """hw_main in generated worlds; oracles on the real code alone:
+       - no name or byte string the scanner meets ends it (it returns only because its input ended / its output failed);
+       - whenever it goes to sleep, every record it has written has been flushed (otherwise the record is never delivered);
+       - what it writes is the model's found_host applied to the calls it made (correspondence)."""
+    import socket as real_socket
+    worlds = [dict(HANDMADE_WORLD)] + hostile_worlds() + [rand_world(rng) for _ in range(250 if quick else 4000)]
+    fh_lines, fh_runs = [], []
+    checked_real = 0
+    for k, w in enumerate(worlds):
+        via = w.pop("via", None)
+        r = run_hw_main(work, w)
+        lines_out = r["text"].split("\n")[:-1]
+        ctx.case(("hw_main", k, repr(sorted(w.items()))[:4000]), nontrivial=bool(lines_out),
+                 sample={"kind": "scanner main loop", "seeds": [s[:30] for s in w["seeds"]], "auto_hosts": w["auto"], "waits": r["waits"],
+                         "status": r["status"], "records": lines_out[:6]} if k == 0 else None)
+        ctx.count("scanner_loop_runs")
+        ctx.count("scanner_loop_status_" + r["status"].split(":")[0].split(" ")[0])
+        ctx.count("scanner_loop_records", len(lines_out))
+        if via:
+            ctx.count("scanner_loop_hostile_names")
+        rp = {"stage": "hw_main", "world": w}
+        if r["status"].startswith("EXC") or r["status"] == "FUEL":
+            cls = r["status"].split(":")[-1]
+            ctx.violation("the scanner process ended (%s) on %s that cannot be represented" % (cls, via) if via else
+                          "the scanner process ended (%s) on what it met on the remote machine" % cls, dict(rp, exception=cls))
+        elif r["status"] == "STILL-RUNNING":
+            ctx.disagree("hw_main keeps running after its input ended", repr(w)[:600], r["status"], "RETURN")
+        elif r["status"] != "RETURN":
+            ctx.disagree("hw_main return value", repr(w)[:600], r["status"], "RETURN")
+        if r["unflushed_at_wait"] is not None:
+            ctx.violation("the scanner went to sleep with records written but not flushed: they are not delivered",
+                          dict(rp, unflushed=r["unflushed_at_wait"][:200]))
+        if r["text"] and not r["text"].endswith("\n"):
+            ctx.violation("the scanner wrote an incomplete record", dict(rp, tail=r["text"][-100:]))
+        if not r["status"].startswith("EXC"):
+            tb = tables(*[x for c in r["calls"] for x in c])
+            fh_lines.append("FH %s %s" % (tb, " ".join("%s %s" % (u32(n), u32(i)) for n, i in r["calls"])) if r["calls"] else None)
+            fh_runs.append((w, r))
+        if r["text"] and k % 3 == 0:
+            try:
+                scanner_streams.append(r["text"].encode("utf-8"))
+            except UnicodeEncodeError:
+                pass
+        # the resolver stand-in against the real one, where the real one fails before any lookup
+        for n in list(w["seeds"]) + [w["hostname"]]:
+            if checked_real >= 400:
+                break
+            try:
+                resolver_arg(n)
+                continue
+            except (UnicodeError, TypeError) as e:
+                mine = type(e)
+            for fn in (real_socket.gethostbyname, real_socket.gethostbyaddr):
+                checked_real += 1
+                try:
+                    fn(n)
+                    real = None
+                except Exception as e2:
+                    real = type(e2)
+                if real is None or not (issubclass(real, mine) or issubclass(mine, real)):
+                    ctx.disagree("resolver stand-in vs socket.%s" % fn.__name__, repr(n)[:200], repr(real), repr(mine))
+    ctx.extra["resolver_argument_errors_checked_against_real_socket"] = checked_real
+    todo = [(ln, wr) for ln, wr in zip(fh_lines, fh_runs) if ln is not None]
+    for (ln, (w, r)), o in zip(todo, ctx.run_driver([ln for ln, _ in todo])):
+        i = "OK %s" % u32(r["text"])
+        if i != o:
+            ctx.disagree("hw_main output vs found_host model on the calls it made", repr(r["calls"])[:300], i[:300], o[:300])
+    # the hand-made world: everything reachable from the seeds, the hosts file, the cache, netstat and the host's own name is reported
+    r0 = run_hw_main(work, dict(HANDMADE_WORLD))
+    if set(r0["text"].split("\n")[:-1]) != HANDMADE_LINES or r0["status"] != "RETURN":
+        ctx.disagree("hw_main on the hand-made world", "HANDMADE_WORLD", (r0["status"], sorted(set(r0["text"].split("\n")[:-1]) ^ HANDMADE_LINES)),
+                     "RETURN, exactly the expected records")
+    # observation (not part of the property text: a socket path is not a host name): non-ASCII bytes in the output of netstat
+    wn = dict(HANDMADE_WORLD, netstat=(b"unix  3 [ ] STREAM CONNECTED 1 /home/jos\xc3\xa9/.cache/sock\n").hex())
+    rn = run_hw_main(work, wn)
+    ctx.count("scanner_loop_netstat_non_ascii_" + rn["status"].split(":")[-1])
+    if rn["status"].startswith("EXC"):
+        ctx.notes.append("observation: `netstat -n` output with a non-ASCII byte (e.g. in a unix socket path) ends hostwatch with %s"
+                         " (decode('ASCII') in _check_netstat is outside its try); not a name, not counted as a C19 violation" % rn["status"][4:])
+
+
+def scanner_process_cases(ctx, rng, quick, work):
+    """server.start_hostwatch for real: fork, socket pair as stdin/stdout of the child, real hw_main with real buffering.
+    What reaches the server's end must be the records of the first pass, complete; the child must leave with status 0
+    once its input ends."""
+    worlds = [dict(HANDMADE_WORLD)] + [rand_world(rng, plain=True) for _ in range(2 if quick else 12)]
+    for k, w in enumerate(worlds):
+        w = dict(w, data_at=[], dts=[1], eof_after=1, fail_flush_at=None)     # in-process reference: first pass only
+        ref = run_hw_main(work, w)
+        want = ref["text"].encode("utf-8")
+        r = run_hostwatch_process(work, w, len(want))
+        ctx.case(("hostwatch-process", k, repr(sorted(w.items()))[:3000]), nontrivial=bool(want),
+                 sample={"kind": "scanner process (fork)", "bytes_expected": len(want), "bytes_received": len(r["bytes"]), "exit": r["exit"]} if k == 0 else None)
+        ctx.count("scanner_process_runs")
+        rp = {"stage": "hostwatch-process", "world": w}
+        if ref["status"] != "RETURN":
+            continue          # reported by scanner_loop_cases' oracle on the same code
+        if not r["bytes"].startswith(want):
+            ctx.violation("records written by the scanner process did not reach the server's end of its socket",
+                          dict(rp, want=want[:300].decode("latin-1"), got=r["bytes"][:300].decode("latin-1")))
+        elif r["bytes"] and not r["bytes"].endswith(b"\n"):
+            ctx.disagree("scanner process: stream ends inside a record", repr(w)[:400], r["bytes"][-80:], "complete records")
+        if r["exit"] != 0:
+            ctx.disagree("scanner process exit status after its input ended", repr(w)[:400], r["exit"], 0)
+
+
+def server_watch_cases(ctx, rng, quick):
+    """the server's loop with a scanner attached: it must look after the child without waiting for it, go on relaying
+    while the child lives, and (as coded) end with exit status 99 when the child is gone"""
+    WNOHANG = os.WNOHANG
+    cases = [([(0, 0)] * 4, [b"a,1.2.3.4\n", b"b,5.6.7.8\nc,", b"9.9.9.9\n"], None),
+             ([(0, 0)] * 2, [b"x,1.1.1.1\n"], None),
+             ([(0, 0), (4242, 0x6200)], [b"x,1.1.1.1\n", b"y,2.2.2.2\n"], "exit 99"),
+             ([(4242, 9)], [b"x,1.1.1.1\n"], "exit 99"),
+             ([(0, 0), (0, 0), (4242, 0)], [b"partial", b" line\n", b"z,3.3.3.3\n"], "exit 99")]
+    for _ in range(10 if quick else 200):
+        n = rng.randint(1, 6)
+        s = b"".join(rng.choice([b"h%d,10.0.0.%d\n" % (i, i), b"n%d," % i, b"\n"]) for i in range(rng.randint(1, 8)))
+        cases.append(([(0, 0)] * n, random_cut(rng, s, 5)[:n - 1] or [s], None))
+    for answers, chunks, want_exit in cases:
+        r = impl_server_watch(answers, chunks)
+        alive = sum(1 for a in answers if a == (0, 0))
+        ctx.case(("server-watch", tuple(answers), tuple(chunks)), nontrivial=True,
+                 sample={"kind": "server loop with scanner", "waitpid_calls": r["waitpid"][:3], "relayed": len(r["payloads"]), "exit": r["exit"]}
+                 if answers == cases[0][0] else None)
+        ctx.count("server_watch_cases")
+        rp = {"stage": "server-watch", "waitpid_answers": [list(a) for a in answers], "chunks": [hx(c) for c in chunks]}
+        if r["started"] != [(["alpha", "beta"], True)]:
+            ctx.disagree("server start of the scanner", "host request b'alpha beta', auto_hosts on", r["started"], [(["alpha", "beta"], True)])
+        blocking = [c for c in r["waitpid"] if c[0] != 4242 or not (c[1] & WNOHANG)]
+        if blocking:
+            ctx.violation("the server waits for the scanner process to exit (waitpid without WNOHANG, or on another process) instead of "
+                          "relaying its records", dict(rp, waitpid_calls=[list(c) for c in r["waitpid"]]))
+        # while the child lives: one relay per chunk, the session goes on
+        upto = min(alive, len(chunks))
+        stream = b"".join(chunks[:upto])
+        want_p = spec_relay(stream)[0]
+        if b"".join(r["payloads"])[:len(want_p)] != want_p or (want_exit is None and r["exit"] is not None):
+            ctx.violation("with a live scanner attached the server stopped or did not relay its records",
+                          dict(rp, exit=r["exit"], relayed=[hx(p) for p in r["payloads"]][:6]))
+        if want_exit is not None and r["exit"] != want_exit:
+            ctx.disagree("server loop after the scanner process has exited", rp, r["exit"], want_exit)
+
+
 def _correspondence(ctx, rng, quick, work):
     check_dns_names(ctx, rng)
+    hw_streams = []
+    scanner_loop_cases(ctx, rng, quick, work, hw_streams)
+    scanner_process_cases(ctx, rng, quick, work)
+    server_watch_cases(ctx, rng, quick)
     sc = Scanner(work)
     seen_kinds = {}
 
@@ -626,7 +1228,7 @@ def _correspondence(ctx, rng, quick, work):
 
     # ---- A1: found_host call sequences
     lines, impl, descr = [], [], []
-    scanner_streams = []
+    scanner_streams = list(hw_streams)
     nA = 8000 if quick else 40000
     for k in range(nA):
         ncalls = rng.choice([1, 1, 1, 2, 3])
@@ -937,6 +1539,52 @@ def _correspondence(ctx, rng, quick, work):
 
 def replay(ctx, rp):
     r = rp.get("replay", {})
+    if r.get("stage") in ("hw_main", "hostwatch-process"):
+        work = tempfile.mkdtemp(prefix="c19r.")
+        try:
+            res = run_hw_main(work, dict(r["world"]))
+            print("hw_main:", res["status"], "records:", res["text"].split("\n")[:6], "unflushed when going to sleep:", res["unflushed_at_wait"])
+            bad = res["status"] != "RETURN" or res["unflushed_at_wait"] is not None or (res["text"] and not res["text"].endswith("\n"))
+            if r["stage"] == "hostwatch-process" and not bad:
+                want = res["text"].encode("utf-8")
+                pr = run_hostwatch_process(work, dict(r["world"]), len(want))
+                print("scanner process: received %r, exit %r" % (pr["bytes"][:200], pr["exit"]))
+                bad = not pr["bytes"].startswith(want)
+        finally:
+            shutil.rmtree(work, ignore_errors=True)
+        return bad
+    if r.get("stage") == "server-watch":
+        res = impl_server_watch([tuple(a) for a in r["waitpid_answers"]], [bytes.fromhex(c) if c != "-" else b"" for c in r["chunks"]])
+        print("server loop: waitpid calls %r, relayed %r, exit %r" % (res["waitpid"], res["payloads"][:5], res["exit"]))
+        alive = sum(1 for a in r["waitpid_answers"] if tuple(a) == (0, 0))
+        chunks = [bytes.fromhex(c) if c != "-" else b"" for c in r["chunks"]]
+        want_p = spec_relay(b"".join(chunks[:min(alive, len(chunks))]))[0]
+        return (any(c[0] != 4242 or not (c[1] & os.WNOHANG) for c in res["waitpid"])
+                or b"".join(res["payloads"])[:len(want_p)] != want_p
+                or (alive == len(r["waitpid_answers"]) and res["exit"] is not None))
+    if r.get("stage") == "check_dns":
+        import ast as _ast
+        import sshuttle.hostwatch as hostwatch
+        import socket as real_socket
+        name = _ast.literal_eval(r["name"])
+        old = (hostwatch.socket, hostwatch.found_host, hostwatch.check_host)
+
+        def ghbn(n):
+            resolver_arg(n)
+            raise real_socket.gaierror(-2, "Name or service not known")
+        hostwatch.socket = Shim(real_socket, gethostbyname=ghbn)
+        hostwatch.found_host = lambda n, ip: None
+        hostwatch.check_host = lambda ip: None
+        try:
+            try:
+                hostwatch._check_dns(name)
+                print("_check_dns(%r) returned" % name)
+                return False
+            except BaseException as e:      # noqa
+                print("_check_dns(%r) raised %s" % (name, type(e).__name__))
+                return True
+        finally:
+            hostwatch.socket, hostwatch.found_host, hostwatch.check_host = old
     if "payloads" in r:
         ps = [bytes.fromhex(p) if p != "-" else b"" for p in r["payloads"]]
         st, data = with_client(lambda g, pf: client_payloads(g, pf, ps))
